@@ -4,7 +4,7 @@
 From RU Require Import Base.Prelude Base.Utf8 Base.Utf8Facts Model.AsciiSet Gen.Tables
   Model.PercentEncoding Model.HostT Model.UrlRecord Model.Parser Model.WF
   Proofs.ListN Proofs.C14_Set Proofs.C14_Enc Proofs.C14_Views Proofs.C02_Enc Proofs.C02_Parts
-  Proofs.C02_Opaque Proofs.C02_Path Proofs.C02_PathL1.
+  Proofs.C02_Opaque Proofs.C02_Path Proofs.C02_PathL1 Proofs.C02_Reach Proofs.C16_RT.
 
 (* ---------- character classes of the authority ---------- *)
 (* the characters that end the authority *)
@@ -341,15 +341,7 @@ Proof.
   unfold auth_delim in Hd. rewrite Hd in H. exact (IH _ _ Hf H).
 Qed.
 
-(* host_text_ok, as stated in C02_Reach.v (repeated here as the premises actually used) *)
-Definition host_text_good (t : list N) : Prop :=
-  ascii t /\ t <> []
-  /\ (forall special rest,
-        match rest with [] => True | c :: _ => (c =? 58) || (c =? 47) || (c =? 63) || (c =? 35) || ((c =? 92) && special) = true end ->
-        host_scan special false [] (t ++ rest) = (t, rest))
-  /\ scan_last_at true t 0 None = None.
-
-Lemma host_text_facts t : host_text_good t ->
+Lemma host_text_facts t : host_text_ok t ->
   forallb (plainc true) t = true /\ match t with c :: _ => (c =? 58) = false | [] => True end.
 Proof.
   intros (_ & _ & Hs & Ha). specialize (Hs true [] I).
@@ -359,7 +351,7 @@ Proof.
   unfold plainc. apply andb_true_iff in Hf. destruct Hf as [F1 F2]. rewrite F1, F2, Hat. reflexivity.
 Qed.
 
-Lemma host_text_scan sp t X : host_text_good t ->
+Lemma host_text_scan sp t X : host_text_ok t ->
   (forall count last, scan_last_at sp X count last = last) ->
   forall count last, scan_last_at sp (t ++ X) count last = last.
 Proof.
@@ -367,7 +359,7 @@ Proof.
   rewrite scan_plain; [apply HX|]. apply (forallb_impl (plainc true)); [apply plainc_weaken | exact Hf].
 Qed.
 
-Lemma host_text_last t ser : host_text_good t -> ends_with_byte 47 (ser ++ t) = false.
+Lemma host_text_last t ser : host_text_ok t -> ends_with_byte 47 (ser ++ t) = false.
 Proof.
   intros Ht. destruct (host_text_facts t Ht) as [Hf _]. destruct Ht as (_ & Hne & _).
   unfold ends_with_byte. rewrite rev_app_distr. destruct (rev t) as [|x y] eqn:E.
@@ -432,3 +424,190 @@ Proof.
     cbn [app parse_port_loop] in *. rewrite Ht, Hc in *.
     destruct (65535 <? p0 * 10 + (c - 48)); [discriminate|]. exact (IH _ _ _ _ _ Hd H HX).
 Qed.
+
+Lemma opt_eqb_false p d : opt_eqb (Some p) d = false -> d <> Some p.
+Proof. intros H E. subst d. cbn [opt_eqb] in H. rewrite N.eqb_refl in H. discriminate. Qed.
+
+Lemma opt_eqb_ne p d : d <> Some p -> opt_eqb (Some p) d = false.
+Proof.
+  intros H. destruct d as [q|]; [|reflexivity]. cbn [opt_eqb]. apply N.eqb_neq. intros E. apply H. subst. reflexivity.
+Qed.
+
+Definition port_text (pt : option N) : list N := match pt with Some p => 58 :: decimal p | None => [] end.
+Definition port_ok (dflt pt : option N) : Prop :=
+  match pt with Some p => p <= 65535 /\ dflt <> Some p | None => True end.
+
+(* L3 for parse_port *)
+Lemma parse_port_canon dflt p X : p <= 65535 -> dflt <> Some p -> pe_ok X ->
+  parse_port CUrlParser dflt (decimal p ++ X) = POk (Some p, X).
+Proof.
+  intros Hp Hd HX. unfold parse_port. destruct (port_rt p Hp) as [H1 H2].
+  rewrite (port_loop_digits _ _ _ _ _ X H2 H1 HX). cbn [pbind negb andb orb].
+  rewrite (opt_eqb_ne p dflt Hd). reflexivity.
+Qed.
+
+(* ================= host and port together ================= *)
+(* the display of every parsed host is above U+0020 (true of url::Host: forbidden host code points) *)
+Definition host_above (hp hpo : list N -> result host) (hd : host -> list N) : Prop :=
+  (forall s h, hp s = Ok h -> forallb above_space (hd h) = true)
+  /\ (forall s h, hpo s = Ok h -> forallb above_space (hd h) = true).
+
+Section HostPort.
+Variable hp hpo : list N -> result host.
+Variable hd : host -> list N.
+Hypothesis HOK : HostOK hp hpo hd.
+Hypothesis HAb : host_above hp hpo hd.
+Variable st : scheme_type.
+Hypothesis Hnf : st_is_file st = false.
+Notation sp := (st_is_special st).
+
+Definition hpx : list N -> result host := if sp then hp else hpo.
+
+(* canonical host: the empty host of a non-special URL, or a host whose display parses back to it *)
+Definition host_ok (h : host) : Prop :=
+  (h = HDomain [] /\ sp = false)
+  \/ (h <> HDomain [] /\ host_text_ok (hd h) /\ hpx (hd h) = Ok h /\ forallb above_space (hd h) = true).
+
+Lemma hd_empty : hd (HDomain []) = [].
+Proof. destruct HOK as (_ & _ & _ & H & _). exact H. Qed.
+
+Lemma hpx_host_ok s h : hpx s = Ok h -> h <> HDomain [] -> host_ok h.
+Proof.
+  intros H Hne. right. destruct HOK as (H1 & H2 & _). destruct HAb as [A1 A2]. unfold hpx in *. destruct sp.
+  - destruct (H1 s h H Hne) as [T R]. split; [exact Hne|]. split; [exact T|]. split; [exact R | exact (A1 s h H)].
+  - destruct (H2 s h H Hne) as [T R]. split; [exact Hne|]. split; [exact T|]. split; [exact R | exact (A2 s h H)].
+Qed.
+
+Definition hap_tail (se : N) (ser : list N) (host : host) (remaining : list N)
+  : pres (list N * N * host_internal * option N * list N) :=
+  let ser1 := ser ++ hd host in
+  host_end <~ to_u32 (nlen ser1) ;;
+  u_ <~ (match host with
+        | HDomain [] => if inp_starts_with_char 58 remaining then PErr EmptyHost
+                        else if sp then PErr EmptyHost else POk tt
+        | _ => POk tt
+        end) ;;
+  match inp_split_prefix_char 58 remaining with
+  | Some rem =>
+      ' (port, rem2) <~ parse_port CUrlParser (default_port (nfirstn se ser1)) rem ;;
+      POk (match port with Some p => ser1 ++ [58] ++ decimal p | None => ser1 end,
+           host_end, hi_of_host host, port, rem2)
+  | None => POk (ser1, host_end, hi_of_host host, None, remaining)
+  end.
+
+Lemma phap_unfold se ser l :
+  parse_host_and_port hp hpo hd CUrlParser st se ser l
+  = (' (host, remaining) <~ parse_host hp hpo st l ;; hap_tail se ser host remaining).
+Proof. reflexivity. Qed.
+
+Lemma parse_host_unfold l :
+  parse_host hp hpo st l
+  = (let '(h, rem) := host_scan sp false [] l in
+     if scheme_type_eqb st STSpecialNotFile && (match h with [] => true | _ => false end) then PErr EmptyHost
+     else host <~ of_result (hpx h) ;; POk (host, rem)).
+Proof.
+  unfold parse_host, hpx. rewrite Hnf. destruct (host_scan sp false [] l) as [h rem].
+  destruct (scheme_type_eqb st STSpecialNotFile && match h with [] => true | _ :: _ => false end); [reflexivity|].
+  destruct sp; reflexivity.
+Qed.
+
+(* L1 *)
+Theorem phap_out se ser l ser2 he hi port rem2 : usv_list l ->
+  parse_host_and_port hp hpo hd CUrlParser st se ser l = POk (ser2, he, hi, port, rem2) ->
+  exists h, host_ok h /\ port_ok (default_port (nfirstn se (ser ++ hd h))) port
+            /\ (h = HDomain [] -> port = None)
+            /\ ser2 = ser ++ hd h ++ port_text port /\ he = nlen ser + nlen (hd h) /\ hi = hi_of_host h
+            /\ usv_list rem2 /\ pe_ok rem2.
+Proof.
+  intros Hu. rewrite phap_unfold, parse_host_unfold.
+  destruct (host_scan sp false [] l) as [ht remaining] eqn:Eh.
+  destruct (host_scan_out sp l false [] ht remaining Hu Eh) as [Hur Hhead].
+  destruct (scheme_type_eqb st STSpecialNotFile && match ht with [] => true | _ :: _ => false end); [discriminate|].
+  destruct (hpx ht) as [h|e] eqn:Ehp; cbn [of_result pbind]; [|discriminate].
+  unfold hap_tail. destruct (to_u32 (nlen (ser ++ hd h))) as [x| |] eqn:Eu; cbn [pbind]; try discriminate.
+  apply to_u32_inv in Eu. destruct Eu as [-> Hb]. rewrite nlen_app.
+  set (chk := match h with HDomain [] => _ | _ => POk tt end).
+  destruct chk as [[]| |] eqn:Echk; cbn [pbind]; try discriminate.
+  assert (host_ok h /\ (h = HDomain [] -> inp_split_prefix_char 58 remaining = None)) as [Hok Hemp].
+  { destruct h as [[|d0 d]|a|pcs]; try (split; [eapply hpx_host_ok; [exact Ehp | discriminate] | discriminate]).
+    unfold chk in Echk. unfold inp_starts_with_char in Echk. unfold inp_split_prefix_char.
+    destruct (inp_next remaining) as [[d r]|].
+    - destruct (d =? 58); [discriminate|]. destruct sp eqn:Esp; [discriminate|]. split; [left; split; [reflexivity | exact Esp] | reflexivity].
+    - destruct sp eqn:Esp; [discriminate|]. split; [left; split; [reflexivity | exact Esp] | reflexivity]. }
+  destruct (inp_split_prefix_char 58 remaining) as [rem|] eqn:E58.
+  - assert (h <> HDomain []) as Hne by (intros E; specialize (Hemp E); discriminate).
+    assert (usv_list rem) as Hurem.
+    { unfold inp_split_prefix_char in E58. destruct (inp_next remaining) as [[d r]|] eqn:En; [|discriminate].
+      destruct (d =? 58); [|discriminate]. inversion E58; subst. exact (inp_next_usv _ _ _ Hur En). }
+    unfold parse_port.
+    destruct (parse_port_loop CUrlParser rem 0 false) as [[[p any] r2]| |] eqn:El; cbn [pbind]; try discriminate.
+    destruct (port_loop_out rem 0 false p any r2 Hurem ltac:(lia) El) as (Hp & Hur2 & Hpe).
+    cbn [ctx_eqb andb]. rewrite andb_false_r. cbn [andb].
+    destruct (negb any || opt_eqb (Some p) (default_port (nfirstn se (ser ++ hd h)))) eqn:Eo;
+      intros H; inversion H; subst; clear H; exists h; (split; [exact Hok|]).
+    + cbn [port_ok port_text]. rewrite app_nil_r. repeat split; try assumption; try reflexivity.
+    + apply orb_false_iff in Eo. destruct Eo as [_ Eo]. cbn [port_ok port_text].
+      rewrite <- app_assoc. cbn [app].
+      repeat split; try assumption; try reflexivity; [exact (opt_eqb_false _ _ Eo) | intros E; contradiction].
+  - intros H. inversion H; subst. clear H. exists h. split; [exact Hok|]. cbn [port_ok port_text]. rewrite app_nil_r.
+    repeat split; try assumption; try reflexivity.
+    destruct rem2 as [|c r]; [exact I|]. destruct Hhead as [Ht Hd]. split; [exact Ht|].
+    unfold inp_split_prefix_char in E58. rewrite inp_next_cons in E58 by exact Ht.
+    destruct (c =? 58) eqn:Ec; [discriminate|]. cbn [orb] in Hd.
+    unfold auth_delim in Hd. unfold is_path_end. destruct sp; bool_brute.
+Qed.
+
+(* L3 *)
+Lemma host_scan_tail X : tail_ok X -> host_scan sp false [] X = ([], X).
+Proof.
+  destruct X as [|c r]; [reflexivity|]. cbn [tail_ok]. intros H. cbn [host_scan].
+  assert (is_tnl c = false) as Ht by (unfold is_tnl; lia). rewrite Ht.
+  assert (((c =? 58) && negb false) || ((c =? 92) && sp) || (c =? 47) || (c =? 63) || (c =? 35) = true) as Hs
+    by (destruct sp; lia).
+  rewrite Hs. reflexivity.
+Qed.
+
+Lemma port_text_head pt X : tail_ok X ->
+  match port_text pt ++ X with [] => True | c :: _ => (c =? 58) || (c =? 47) || (c =? 63) || (c =? 35) || ((c =? 92) && sp) = true end.
+Proof.
+  intros HX. destruct pt as [p|]; [reflexivity|]. cbn [port_text app]. destruct X as [|c r]; [exact I|].
+  cbn [tail_ok] in HX. destruct sp; lia.
+Qed.
+
+Theorem parse_host_canon h pt X : host_ok h -> (h = HDomain [] -> pt = None) -> tail_ok X ->
+  parse_host hp hpo st (hd h ++ port_text pt ++ X) = POk (h, port_text pt ++ X).
+Proof.
+  intros Hok Hemp HX. rewrite parse_host_unfold. destruct Hok as [[-> Hns]|(Hne & Ht & Hp & _)].
+  - rewrite (Hemp eq_refl). rewrite hd_empty. cbn [port_text app]. rewrite host_scan_tail by exact HX.
+    rewrite andb_true_r. assert (scheme_type_eqb st STSpecialNotFile = false) as E by (destruct st; [discriminate| discriminate |reflexivity]).
+    rewrite E. unfold hpx. rewrite Hns. destruct HOK as (_ & _ & _ & _ & _ & H6). rewrite H6. reflexivity.
+  - destruct Ht as (Ha & Hnn & Hs & Hat). rewrite (Hs sp (port_text pt ++ X) (port_text_head pt X HX)).
+    destruct (hd h) as [|c0 t0] eqn:Ehd; [contradiction|]. rewrite andb_false_r.
+    rewrite Hp. reflexivity.
+Qed.
+
+Theorem hap_tail_canon se ser h pt X : host_ok h -> (h = HDomain [] -> pt = None) ->
+  port_ok (default_port (nfirstn se (ser ++ hd h))) pt -> tail_ok X ->
+  nlen ser + nlen (hd h) <= U32_MAX_P ->
+  hap_tail se ser h (port_text pt ++ X)
+  = POk (ser ++ hd h ++ port_text pt, nlen ser + nlen (hd h), hi_of_host h, pt, X).
+Proof.
+  intros Hok Hemp Hpt HX Hb. unfold hap_tail. rewrite nlen_app. rewrite to_u32_ok by exact Hb. cbn [pbind].
+  assert (tail_ok X -> inp_split_prefix_char 58 X = None /\ inp_starts_with_char 58 X = false) as HX58.
+  { clear. intros HX. unfold inp_split_prefix_char, inp_starts_with_char. destruct X as [|c r]; [split; reflexivity|].
+    cbn [tail_ok] in HX. rewrite inp_next_cons by (unfold is_tnl; lia). replace (c =? 58) with false by lia. split; reflexivity. }
+  destruct (HX58 HX) as [E1 E2].
+  set (chk := match h with HDomain [] => _ | _ => POk tt end).
+  assert (chk = POk tt) as ->.
+  { unfold chk. destruct Hok as [[-> Hns]|(Hne & _)].
+    - rewrite (Hemp eq_refl). cbn [port_text app]. rewrite E2, Hns. reflexivity.
+    - destruct h as [[|d0 d]|a|pcs]; try reflexivity. contradiction. }
+  cbn [pbind]. destruct pt as [p|]; cbn [port_text port_ok] in *.
+  - destruct Hpt as [Hp Hd]. cbn [app]. unfold inp_split_prefix_char at 1. rewrite inp_next_cons by reflexivity.
+    replace (58 =? 58) with true by reflexivity.
+    rewrite parse_port_canon by (try assumption; apply tail_pe; exact HX). cbn [pbind].
+    rewrite <- app_assoc. reflexivity.
+  - cbn [app]. rewrite E1. rewrite app_nil_r. reflexivity.
+Qed.
+
+End HostPort.
